@@ -1315,3 +1315,467 @@ Section Infer.
       destruct (ty_ok_parts _ Hok) as [A [B _]]. repeat split; try assumption. eapply msize_assoc; eauto.
   Qed.
 End Infer.
+
+(* ------------------------------------------------------------------------------------------------ *)
+(* Stage 2g: the fuel-free specification of inferFun against [instantiates]                          *)
+(* ------------------------------------------------------------------------------------------------ *)
+
+Definition restrict (Wl : list string) (m : subst) : subst :=
+  flat_map (fun n => match assoc n m with Some u => [(n, u)] | None => [] end) Wl.
+
+Lemma In_restrict Wl m k u : In (k, u) (restrict Wl m) -> In k Wl /\ assoc k m = Some u.
+Proof.
+  unfold restrict. intros H. apply in_flat_map in H. destruct H as [n [Hn H]].
+  destruct (assoc n m) as [u'|] eqn:E; [|contradiction]. destruct H as [H|[]]. inversion H; subst. auto.
+Qed.
+
+Lemma assoc_restrict_in Wl m n : In n Wl -> assoc n (restrict Wl m) = assoc n m.
+Proof.
+  induction Wl as [|a r IH]; intros Hin; [contradiction|].
+  unfold restrict. simpl. fold (restrict r m).
+  destruct (String.eqb_spec n a) as [E|E].
+  - subst a. destruct (assoc n m) as [u|] eqn:Ea; simpl.
+    + rewrite String.eqb_refl. reflexivity.
+    + destruct (assoc n (restrict r m)) as [u|] eqn:E2; [|reflexivity].
+      apply assoc_In in E2. apply In_restrict in E2. destruct E2 as [_ E2]. congruence.
+  - destruct Hin as [Hin|Hin]; [congruence|].
+    destruct (assoc a m) as [u|]; simpl; [|auto].
+    destruct (String.eqb_spec n a); [congruence|auto].
+Qed.
+
+Lemma assoc_restrict_out Wl m n : ~ In n Wl -> assoc n (restrict Wl m) = None.
+Proof.
+  intros Hn. destruct (assoc n (restrict Wl m)) as [u|] eqn:E; [|reflexivity].
+  apply assoc_In in E. apply In_restrict in E. tauto.
+Qed.
+
+Lemma subst_agree : forall t s s', simple t = true ->
+  (forall v, In v (vars_of t) -> assoc v s = assoc v s') -> subst_ty s t = subst_ty s' t.
+Proof.
+  induction t using ty_ind'; intros s s' Hs Hv; try reflexivity; try discriminate Hs.
+  - simpl. rewrite (Hv n (or_introl Logic.eq_refl)). reflexivity.
+  - simpl in *. f_equal. auto.
+  - simpl in Hs |- *. apply andb_true_iff in Hs. destruct Hs as [S1 S2].
+    rewrite (IHt1 s s' S1), (IHt2 s s' S2); [reflexivity| |]; intros v Hin; apply Hv; simpl; apply in_or_app; tauto.
+  - simpl. f_equal. apply map_ext_in. intros [n t] Hin. simpl. f_equal.
+    rewrite Forall_forall in H. apply (H (n, t) Hin).
+    + eapply simple_obj_in; eauto.
+    + intros v Hv'. apply Hv. simpl. apply in_flat_map. exists (n, t). split; assumption.
+  - simpl in *. f_equal. auto.
+Qed.
+
+Lemma tys_eqb_eq a b : tys_eqb a b = eqb_list a b.
+Proof. reflexivity. Qed.
+
+Lemma params_match_eq a b : params_match a b = eqb_list a b.
+Proof. reflexivity. Qed.
+
+Lemma eqb_list_length a b : eqb_list a b = true -> List.length a = List.length b.
+Proof.
+  revert b. induction a as [|x r IH]; intros [|y s] H; simpl in H; try discriminate H; [reflexivity|].
+  apply andb_true_iff in H. simpl. f_equal. apply IH. tauto.
+Qed.
+
+Lemma keyable_nonvar_subst s k : keyable k = true -> is_var k = false -> subst_ty s k = k.
+Proof. destruct k; simpl; intros H1 H2; try discriminate H1; try discriminate H2; reflexivity. Qed.
+
+Lemma subst_simple : forall t s, simple t = true -> (forall n u, assoc n s = Some u -> simple u = true) ->
+  simple (subst_ty s t) = true.
+Proof.
+  induction t using ty_ind'; intros s Hs Hu; try reflexivity; try discriminate Hs.
+  - simpl. destruct (assoc n s) as [u|] eqn:E; [eauto|reflexivity].
+  - simpl in *. auto.
+  - simpl in *. apply andb_true_iff in Hs. destruct Hs. rewrite IHt1, IHt2 by assumption. reflexivity.
+  - simpl. apply forallb_forall. intros [n t'] Hin. apply in_map_iff in Hin. destruct Hin as [[n0 t] [E Hin]].
+    simpl in E. inversion E; subst. simpl. rewrite Forall_forall in H. apply (H (n, t) Hin); [|assumption].
+    eapply simple_obj_in; eauto.
+  - simpl in *. auto.
+Qed.
+
+Lemma subst_wf_nvk : forall t s, simple t = true -> wf_ty t = true -> no_var_key t = true ->
+  (forall n u, assoc n s = Some u -> wf_ty u = true) -> wf_ty (subst_ty s t) = true.
+Proof.
+  induction t using ty_ind'; intros s Hs Hw Hk Hu; try reflexivity; try discriminate Hs.
+  - simpl. destruct (assoc n s) as [u|] eqn:E; [eauto|reflexivity].
+  - simpl in *. auto.
+  - apply wf_map in Hw. destruct Hw as [K [W1 W2]]. simpl in Hs, Hk.
+    apply andb_true_iff in Hs. destruct Hs as [S1 S2].
+    apply andb_true_iff in Hk. destruct Hk as [Hk K2]. apply andb_true_iff in Hk. destruct Hk as [K0 K1].
+    apply negb_true_iff in K0. simpl.
+    rewrite (keyable_nonvar_subst s t1 K K0), K, W1. simpl. apply IHt2; assumption.
+  - pose proof Hw as Hw'. apply wf_obj in Hw'. destruct Hw' as [_ Hwf].
+    simpl in Hw. apply andb_true_iff in Hw. destruct Hw as [Hnd _].
+    simpl. rewrite map_fst_subst, Hnd. simpl.
+    apply forallb_forall. intros [n t'] Hin. apply in_map_iff in Hin. destruct Hin as [[n0 t] [E Hin]].
+    simpl in E. inversion E; subst. simpl. rewrite Forall_forall in H. apply (H (n, t) Hin); try assumption.
+    + eapply simple_obj_in; eauto.
+    + eauto.
+    + simpl in Hk. rewrite forallb_forall in Hk. apply (Hk _ Hin).
+  - simpl in *. auto.
+Qed.
+
+Lemma rmapM_map_ok {X Y} (g : X -> res Y) (h : X -> Y) l :
+  (forall x, In x l -> g x = Ok (h x)) -> rmapM g l = Ok (map h l).
+Proof.
+  induction l as [|a r IH]; intros H; simpl; [reflexivity|].
+  rewrite (H a) by (left; reflexivity). simpl. rewrite IH by (intros x Hin; apply H; right; exact Hin). reflexivity.
+Qed.
+
+Lemma asub_nvk : forall t m, simple t = true -> wf_ty t = true -> no_var_key t = true ->
+  asub m t = Ok (subst_ty m t).
+Proof.
+  induction t using ty_ind'; intros m Hs Hw Hk; try reflexivity; try discriminate Hs.
+  - simpl. destruct (assoc n m); reflexivity.
+  - simpl in *. rewrite IHt by assumption. reflexivity.
+  - apply wf_map in Hw. destruct Hw as [K [W1 W2]]. simpl in Hs, Hk.
+    apply andb_true_iff in Hs. destruct Hs as [S1 S2].
+    apply andb_true_iff in Hk. destruct Hk as [Hk K2]. apply andb_true_iff in Hk. destruct Hk as [K0 K1].
+    apply negb_true_iff in K0. simpl.
+    rewrite IHt1, IHt2 by assumption. simpl. unfold mk_map.
+    rewrite (keyable_nonvar_subst m t1 K K0), K. reflexivity.
+  - pose proof Hw as Hw'. apply wf_obj in Hw'. destruct Hw' as [_ Hwf].
+    simpl. 
+    rewrite (rmapM_map_ok _ (fun f => (fst f, subst_ty m (snd f)))); [reflexivity|].
+    intros [n t] Hin. simpl. rewrite Forall_forall in H. specialize (H (n, t) Hin m). simpl in H.
+    rewrite H; [reflexivity| | |].
+    + eapply simple_obj_in; eauto.
+    + eauto.
+    + simpl in Hk. rewrite forallb_forall in Hk. apply (Hk _ Hin).
+  - simpl in *. rewrite IHt by assumption. reflexivity.
+Qed.
+
+Lemma slot_free_subst_bound : forall t s, simple t = true -> slot_free (subst_ty s t) = true ->
+  forall v, In v (vars_of t) -> exists u, assoc v s = Some u.
+Proof.
+  induction t using ty_ind'; intros s Hs Hf v Hv; try (simpl in Hv; contradiction); try discriminate Hs.
+  - simpl in Hv. destruct Hv as [E|[]]. subst v. simpl in Hf. destruct (assoc n s) as [u|]; [eauto|discriminate Hf].
+  - simpl in *. eauto.
+  - simpl in *. apply andb_true_iff in Hs. apply andb_true_iff in Hf. destruct Hs, Hf.
+    apply in_app_or in Hv. destruct Hv; eauto.
+  - simpl in Hv. apply in_flat_map in Hv. destruct Hv as [[n t] [Hin Hv]].
+    rewrite Forall_forall in H. apply (H (n, t) Hin s); [eapply simple_obj_in; eauto| |exact Hv].
+    simpl in Hf. rewrite forallb_forall in Hf. apply (Hf (n, subst_ty s t)).
+    apply in_map_iff. exists (n, t). auto.
+  - simpl in *. eauto.
+Qed.
+
+Lemma subst_slot_free : forall t s, simple t = true ->
+  (forall v, In v (vars_of t) -> exists u, assoc v s = Some u /\ slot_free u = true) ->
+  slot_free (subst_ty s t) = true.
+Proof.
+  induction t using ty_ind'; intros s Hs Hv; try reflexivity; try discriminate Hs.
+  - simpl. destruct (Hv n (or_introl Logic.eq_refl)) as [u [E Hu]]. rewrite E. exact Hu.
+  - simpl in *. auto.
+  - simpl in *. apply andb_true_iff in Hs. destruct Hs.
+    rewrite IHt1, IHt2; try assumption; try reflexivity; intros v Hin; apply Hv; apply in_or_app; tauto.
+  - simpl. apply forallb_forall. intros [n t'] Hin. apply in_map_iff in Hin. destruct Hin as [[n0 t] [E Hin]].
+    simpl in E. inversion E; subst. simpl. rewrite Forall_forall in H. apply (H (n, t) Hin).
+    + eapply simple_obj_in; eauto.
+    + intros v Hv'. apply Hv. simpl. apply in_flat_map. exists (n, t). split; assumption.
+  - simpl in *. auto.
+Qed.
+
+Section Spec.
+  Variables (fresh : N) (params : list ty) (ret : ty) (args : list ty).
+  Hypothesis Hp : forall p, In p params -> simple p = true /\ wf_ty p = true.
+  Hypothesis Hr1 : simple ret = true.
+  Hypothesis Hr2 : wf_ty ret = true.
+  Hypothesis Hnk : no_var_key ret = true.
+  Hypothesis Hfr : forall v i, In v (flat_map vars_of (ret :: params)) ->
+                               v <> sname fresh i /\ v <> ("t" ++ string_of_N (fresh + i)).
+  Hypothesis Ha : forallb ty_ok args = true.
+
+  Let n := List.length args.
+  Let m1 := m_init fresh params ret n.
+  Let Wl := flat_map vars_of params.
+  Let W := fun v => In v Wl.
+
+  Lemma spec_sound ps rt :
+    infer_spec fresh params ret args = Ok (ps, rt) -> eqb_list ps args = true ->
+    (exists s, instantiates s params ret args rt) /\ ty_ok rt = true.
+  Proof.
+    unfold infer_spec. fold n. fold m1. intros HI HE.
+    destruct (Nat.eqb n (List.length params)) eqn:El; simpl in HI; [|discriminate HI].
+    apply Nat.eqb_eq in El.
+    destruct (mtch_list params args m1) as [[ks m2]| | |] eqn:EM; simpl in HI; try discriminate HI.
+    rewrite (asub_nvk ret m2 Hr1 Hr2 Hnk) in HI. simpl in HI.
+    destruct (slot_free (subst_ty m2 ret)) eqn:Esf; [|discriminate HI]. inversion HI; subst ks rt. clear HI.
+    destruct (mtch_list_sound W params args m1 ps m2 (params_pre params Hp) Ha
+                (m1_gb fresh params ret args Hfr) EM) as [[P1 [G1 X1]] Q1].
+    destruct Q1 as [Bd T]; [symmetry; exact El|exact HE|].
+    set (s := restrict Wl m2).
+    assert (forall k u, In (k, u) s -> ty_ok u = true) as Hs_ok.
+    { intros k u Hin. apply In_restrict in Hin. destruct Hin as [Hk Hu]. exact (G1 k Hk u Hu). }
+    assert (forall v, In v (vars_of ret) -> assoc v s = assoc v m2) as Hagree.
+    { intros v Hv. destruct (in_dec string_dec v Wl) as [Hin|Hnin].
+      - apply assoc_restrict_in. exact Hin.
+      - unfold s. rewrite (assoc_restrict_out Wl m2 v Hnin). symmetry. rewrite (P1 v Hnin).
+        apply (m1_unbound fresh params ret args Hfr). simpl. apply in_or_app. left. exact Hv. }
+    assert (subst_ty m2 ret = subst_ty s ret) as Eret by (apply subst_agree; [exact Hr1|intros v Hv; symmetry; auto]).
+    split.
+    - exists s. repeat split.
+      + intros k Hk. apply in_map_iff in Hk. destruct Hk as [[k' u] [E Hin]]. simpl in E. subst k'.
+        apply In_restrict in Hin. tauto.
+      + unfold ground_subst. apply forallb_forall. intros [k u] Hin. simpl.
+        destruct (ty_ok_parts _ (Hs_ok k u Hin)) as [A [_ C]]. rewrite A, C. reflexivity.
+      + apply forallb_forall. intros [k u] Hin. simpl. destruct (ty_ok_parts _ (Hs_ok k u Hin)) as [_ [B _]]. exact B.
+      + rewrite tys_eqb_eq. rewrite <- T. f_equal. apply map_ext_in. intros p Hin.
+        apply subst_agree; [apply Hp; exact Hin|]. intros v Hv. apply assoc_restrict_in.
+        apply in_flat_map. eauto.
+      + exact Eret.
+      + exact Esf.
+    - apply ty_ok_intro; [exact Esf| |].
+      + rewrite Eret. apply subst_wf_nvk; try assumption. intros k u Hu. apply assoc_In in Hu.
+        destruct (ty_ok_parts _ (Hs_ok k u Hu)) as [_ [B _]]. exact B.
+      + rewrite Eret. apply subst_simple; [exact Hr1|]. intros k u Hu. apply assoc_In in Hu.
+        destruct (ty_ok_parts _ (Hs_ok k u Hu)) as [_ [_ C]]. exact C.
+  Qed.
+
+  Lemma spec_complete s rt' :
+    instantiates s params ret args rt' ->
+    exists ps rt, infer_spec fresh params ret args = Ok (ps, rt) /\ eqb_list ps args = true /\ ty_eqb rt rt' = true.
+  Proof.
+    intros [Hdom [Hgs [Hws [HT [Hrt Hsf]]]]]. rewrite tys_eqb_eq in HT.
+    pose proof (eqb_list_length _ _ HT) as Hlen. rewrite map_length in Hlen.
+    unfold infer_spec. fold n. fold m1. fold n in Hlen. rewrite <- Hlen, Nat.eqb_refl. simpl negb. cbv iota.
+    assert (cmp s m1) as Hc1.
+    { intros k u u' Hu Hu'. exfalso. apply assoc_In_keys in Hu'. apply Hdom in Hu'.
+      rewrite (m1_unbound fresh params ret args Hfr) in Hu; [discriminate Hu|].
+      simpl. apply in_or_app. right. exact Hu'. }
+    destruct (mtch_list_complete s Hws params args m1 Hp Ha Hc1 HT) as [us [m2 [EM [Hc2 HE]]]].
+    rewrite EM. simpl.
+    destruct (mtch_list_sound W params args m1 us m2 (params_pre params Hp) Ha
+                (m1_gb fresh params ret args Hfr) EM) as [[P1 [G1 X1]] Q1].
+    destruct Q1 as [Bd T]; [exact Hlen|exact HE|].
+    rewrite (asub_nvk ret m2 Hr1 Hr2 Hnk). simpl.
+    assert (forall v, In v (vars_of ret) ->
+              exists u1 u2, assoc v s = Some u1 /\ assoc v m2 = Some u2 /\ ty_eqb u2 u1 = true) as Hboth.
+    { intros v Hv. subst rt'. destruct (slot_free_subst_bound ret s Hr1 Hsf v Hv) as [u1 Hu1].
+      assert (In v Wl) as Hin by (apply Hdom; eapply assoc_In_keys; eauto).
+      destruct (Bd v Hin) as [u2 Hu2]. exists u1, u2. repeat split; try assumption. eapply Hc2; eauto. }
+    assert (slot_free (subst_ty m2 ret) = true) as Esf.
+    { apply subst_slot_free; [exact Hr1|]. intros v Hv. destruct (Hboth v Hv) as [u1 [u2 [H1 [H2 _]]]].
+      exists u2. split; [exact H2|].
+      assert (W v) as Hin by (apply Hdom; eapply assoc_In_keys; eauto).
+      destruct (ty_ok_parts _ (G1 v Hin u2 H2)) as [A _]. exact A. }
+    rewrite Esf. exists us, (subst_ty m2 ret). repeat split; try assumption.
+    subst rt'. apply subst_ext; assumption.
+  Qed.
+
+  Lemma spec_total :
+    infer_spec fresh params ret args = Fail \/ exists ps rt, infer_spec fresh params ret args = Ok (ps, rt).
+  Proof.
+    unfold infer_spec. destruct (negb (Nat.eqb (List.length args) (List.length params))); [left; reflexivity|].
+    destruct (mtch_list_total params args (m_init fresh params ret (List.length args))) as [E|[us [m2 E]]].
+    - intros a Hin. apply Hp; exact Hin.
+    - intros b Hin. rewrite forallb_forall in Ha. destruct (ty_ok_parts _ (Ha b Hin)) as [_ [B _]]. exact B.
+    - rewrite E. left; reflexivity.
+    - rewrite E. simpl. rewrite (asub_nvk ret m2 Hr1 Hr2 Hnk). simpl.
+      destruct (slot_free (subst_ty m2 ret)); [right; eauto|left; reflexivity].
+  Qed.
+End Spec.
+
+(* ------------------------------------------------------------------------------------------------ *)
+(* Stage 3a: tables, try_infer and overload resolution                                               *)
+(* ------------------------------------------------------------------------------------------------ *)
+
+Lemma sig_ok_parts sg : sig_ok sg = true ->
+  (forall p, In p (s_params sg) -> simple p = true /\ wf_ty p = true) /\ simple (s_ret sg) = true /\ wf_ty (s_ret sg) = true.
+Proof.
+  unfold sig_ok. intros H. apply andb_true_iff in H. destruct H as [H H3]. apply andb_true_iff in H. destruct H as [H1 H2].
+  repeat split; try assumption; rewrite forallb_forall in H1; specialize (H1 p H);
+    apply andb_true_iff in H1; tauto.
+Qed.
+
+Lemma fenv_mono fe k sg : fenv_ok fe = true -> assoc k (f_mono fe) = Some sg ->
+  sig_ok sg = true /\ slot_free (sig_ty sg) = true.
+Proof.
+  unfold fenv_ok. intros H Ha. apply andb_true_iff in H. destruct H as [H _].
+  rewrite forallb_forall in H. specialize (H _ (assoc_In _ _ _ Ha)). simpl in H. apply andb_true_iff in H. exact H.
+Qed.
+
+Lemma fenv_poly fe k sigs sg : fenv_ok fe = true -> assoc k (f_poly fe) = Some sigs -> In sg sigs ->
+  sig_ok sg = true /\ no_var_key (s_ret sg) = true.
+Proof.
+  unfold fenv_ok. intros H Ha Hin. apply andb_true_iff in H. destruct H as [_ H].
+  rewrite forallb_forall in H. specialize (H _ (assoc_In _ _ _ Ha)). simpl in H.
+  rewrite forallb_forall in H. specialize (H _ Hin). apply andb_true_iff in H. exact H.
+Qed.
+
+(* the hypotheses on one polymorphic signature *)
+Definition psig_ok (fresh : N) (sg : fsig) : Prop :=
+  sig_ok sg = true /\ no_var_key (s_ret sg) = true /\
+  forall v i, In v (flat_map vars_of (s_ret sg :: s_params sg)) ->
+              v <> sname fresh i /\ v <> ("t" ++ string_of_N (fresh + i)).
+
+Lemma psig_ok_intro fe fresh k sigs sg :
+  fenv_ok fe = true -> fresh_ok fe fresh -> assoc k (f_poly fe) = Some sigs -> In sg sigs -> psig_ok fresh sg.
+Proof.
+  intros Hfe Hfr Ha Hin. destruct (fenv_poly fe k sigs sg Hfe Ha Hin) as [H1 H2].
+  repeat split; try assumption; apply (Hfr k sigs sg v i Ha Hin H).
+Qed.
+
+Definition spec_opt (fresh : N) (sg : fsig) (args : list ty) : option (list ty * ty) :=
+  match infer_spec fresh (s_params sg) (s_ret sg) args with Ok x => Some x | _ => None end.
+
+Lemma try_infer_ok fuel fresh sg args o :
+  psig_ok fresh sg -> forallb ty_ok args = true ->
+  try_infer fuel fresh sg args = COk o -> o = spec_opt fresh sg args.
+Proof.
+  intros [Hs [Hk Hfr]] Ha H. destruct (sig_ok_parts _ Hs) as [Hp [Hr1 Hr2]].
+  unfold try_infer in H. unfold spec_opt.
+  pose proof (infer_rf fresh (s_name sg) (s_params sg) (s_ret sg) args Hp Hr1 Hr2 Hfr Ha fuel fuel) as R.
+  destruct R as [E|[E _]]; rewrite E in H; [|discriminate H].
+  destruct (spec_total fresh (s_params sg) (s_ret sg) args Hp Hr1 Hr2 Hk Ha) as [E2|[ps [rt E2]]];
+    rewrite E2 in H |- *; simpl in H; inversion H; reflexivity.
+Qed.
+
+Lemma try_infer_big fuel fresh sg args :
+  psig_ok fresh sg -> forallb ty_ok args = true ->
+  infer_bound fresh (s_params sg) (s_ret sg) args <= fuel ->
+  try_infer fuel fresh sg args = COk (spec_opt fresh sg args).
+Proof.
+  intros [Hs [Hk Hfr]] Ha Hb. destruct (sig_ok_parts _ Hs) as [Hp [Hr1 Hr2]].
+  unfold try_infer, spec_opt.
+  pose proof (infer_rf fresh (s_name sg) (s_params sg) (s_ret sg) args Hp Hr1 Hr2 Hfr Ha fuel fuel) as R.
+  apply rf_fuel_free in R; [|lia]. rewrite R.
+  destruct (spec_total fresh (s_params sg) (s_ret sg) args Hp Hr1 Hr2 Hk Ha) as [E2|[ps [rt E2]]];
+    rewrite E2; reflexivity.
+Qed.
+
+Lemma spec_opt_sound fresh sg args ps rt :
+  psig_ok fresh sg -> forallb ty_ok args = true ->
+  spec_opt fresh sg args = Some (ps, rt) -> params_match ps args = true ->
+  (exists s, instantiates s (s_params sg) (s_ret sg) args rt) /\ ty_ok rt = true.
+Proof.
+  intros [Hs [Hk Hfr]] Ha H HM. destruct (sig_ok_parts _ Hs) as [Hp [Hr1 Hr2]].
+  unfold spec_opt in H.
+  destruct (infer_spec fresh (s_params sg) (s_ret sg) args) as [[ps' rt']| | |] eqn:E; try discriminate H.
+  inversion H; subst. eapply spec_sound; eauto.
+Qed.
+
+Lemma spec_opt_complete fresh sg args s rt' :
+  psig_ok fresh sg -> forallb ty_ok args = true ->
+  instantiates s (s_params sg) (s_ret sg) args rt' ->
+  exists ps rt, spec_opt fresh sg args = Some (ps, rt) /\ params_match ps args = true /\ ty_eqb rt rt' = true.
+Proof.
+  intros [Hs [Hk Hfr]] Ha HI. destruct (sig_ok_parts _ Hs) as [Hp [Hr1 Hr2]].
+  destruct (spec_complete fresh (s_params sg) (s_ret sg) args Hp Hr1 Hr2 Hk Hfr Ha s rt' HI) as [ps [rt [E [M T]]]].
+  exists ps, rt. unfold spec_opt. rewrite E. auto.
+Qed.
+
+Definition resolve_go (fuel : nat) (fresh : N) (pk : string) (args : list ty) :=
+  fix go (sigs : list fsig) (i : Z) : cres (string * Z * list ty * ty) :=
+    match sigs with
+    | [] => CErr
+    | s :: r =>
+        let+ o := try_infer fuel fresh s args in
+        match o with
+        | Some (ps, rt) => if params_match ps args then COk (pk, i, ps, rt) else go r (i + 1)%Z
+        | None => go r (i + 1)%Z
+        end
+    end.
+
+Lemma resolve_unfold fe fuel fresh name args :
+  resolve fe fuel fresh name args =
+  match assoc (mono_key name args) (f_mono fe) with
+  | Some s => COk (mono_key name args, (-1)%Z, s_params s, s_ret s)
+  | None =>
+      match assoc (poly_key name (List.length args)) (f_poly fe) with
+      | None => CErr
+      | Some sigs => resolve_go fuel fresh (poly_key name (List.length args)) args sigs 0%Z
+      end
+  end.
+Proof. reflexivity. Qed.
+
+Lemma resolve_go_sound fuel fresh pk args : forall sigs i key idx ps rt,
+  (forall sg, In sg sigs -> psig_ok fresh sg) -> forallb ty_ok args = true ->
+  resolve_go fuel fresh pk args sigs i = COk (key, idx, ps, rt) ->
+  params_match ps args = true /\ ty_ok rt = true /\
+  exists sg s, first_applicable sigs args sg /\ instantiates s (s_params sg) (s_ret sg) args rt.
+Proof.
+  induction sigs as [|sg r IH]; intros i key idx ps rt Hs Ha H; simpl in H; [discriminate H|].
+  destruct (try_infer fuel fresh sg args) as [o| |] eqn:ET; simpl in H; try discriminate H.
+  pose proof (Hs sg (or_introl Logic.eq_refl)) as Hsg.
+  apply (try_infer_ok fuel fresh sg args o Hsg Ha) in ET. subst o.
+  assert (forall ps' rt', spec_opt fresh sg args = Some (ps', rt') -> params_match ps' args = false ->
+                          ~ applicable sg args) as Hmis.
+  { intros ps' rt' E M [s [rt2 HI]].
+    destruct (spec_opt_complete fresh sg args s rt2 Hsg Ha HI) as [ps2 [rt3 [E2 [M2 _]]]].
+    rewrite E in E2. inversion E2; subst. congruence. }
+  assert (spec_opt fresh sg args = None -> ~ applicable sg args) as Hnone.
+  { intros E [s [rt2 HI]].
+    destruct (spec_opt_complete fresh sg args s rt2 Hsg Ha HI) as [ps2 [rt3 [E2 _]]]. congruence. }
+  assert (forall key idx ps rt, resolve_go fuel fresh pk args r (i + 1)%Z = COk (key, idx, ps, rt) ->
+            ~ applicable sg args ->
+            params_match ps args = true /\ ty_ok rt = true /\
+            exists sg' s, first_applicable (sg :: r) args sg' /\ instantiates s (s_params sg') (s_ret sg') args rt)
+    as Hlater.
+  { intros key' idx' ps' rt' H' Hna.
+    destruct (IH (i + 1)%Z key' idx' ps' rt' (fun sg' Hin => Hs sg' (or_intror Hin)) Ha H') as [M [K [sg' [s [F I]]]]].
+    repeat split; try assumption. exists sg', s. split; [apply fa_later; assumption|exact I]. }
+  destruct (spec_opt fresh sg args) as [[ps' rt']|] eqn:ES.
+  - destruct (params_match ps' args) eqn:EM.
+    + inversion H; subst. destruct (spec_opt_sound fresh sg args ps rt Hsg Ha ES EM) as [[s HI] K].
+      repeat split; try assumption. exists sg, s. split; [|exact HI]. apply fa_here. exists s, rt. exact HI.
+    + apply (Hlater _ _ _ _ H). eapply Hmis; eauto.
+  - apply (Hlater _ _ _ _ H). auto.
+Qed.
+
+Lemma eqb_list_trans' : forall l1 l2 l3, eqb_list l1 l2 = true -> eqb_list l2 l3 = true -> eqb_list l1 l3 = true.
+Proof.
+  induction l1 as [|a r IH]; intros [|b s] [|c t] H1 H2; simpl in *; try discriminate; [reflexivity|].
+  apply andb_true_iff in H1. apply andb_true_iff in H2. destruct H1, H2.
+  rewrite (eqb_trans a b c), (IH s t); auto.
+Qed.
+
+Lemma eqb_list_sym' : forall l1 l2, forallb ty_ok l1 = true -> forallb ty_ok l2 = true ->
+  eqb_list l1 l2 = true -> eqb_list l2 l1 = true.
+Proof.
+  induction l1 as [|a r IH]; intros [|b s] H1 H2 H; simpl in *; try discriminate; [reflexivity|].
+  apply andb_true_iff in H1. apply andb_true_iff in H2. apply andb_true_iff in H. destruct H1, H2, H.
+  destruct (ty_ok_parts a) as [_ [? _]]; [assumption|]. destruct (ty_ok_parts b) as [_ [? _]]; [assumption|].
+  rewrite (eqb_sym_imp a b), (IH s); auto.
+Qed.
+
+Lemma instantiates_transfer s params ret a a' rt :
+  eqb_list a a' = true -> instantiates s params ret a rt -> instantiates s params ret a' rt.
+Proof.
+  intros HE [H1 [H2 [H3 [H4 [H5 H6]]]]]. repeat split; try assumption.
+  rewrite tys_eqb_eq in *. eapply eqb_list_trans'; eauto.
+Qed.
+
+Lemma first_applicable_transfer sigs a a' sg :
+  eqb_list a a' = true -> eqb_list a' a = true ->
+  first_applicable sigs a sg -> first_applicable sigs a' sg.
+Proof.
+  intros E1 E2 H. induction H as [sg rest args [s [rt HI]]|sg rest args sg' Hna Hf IH].
+  - apply fa_here. exists s, rt. eapply instantiates_transfer; eauto.
+  - apply fa_later; [|apply IH; assumption].
+    intros [s [rt HI]]. apply Hna. exists s, rt. eapply instantiates_transfer; eauto.
+Qed.
+
+Lemma resolve_go_complete fresh pk args : forall sigs sg s rt',
+  (forall sg, In sg sigs -> psig_ok fresh sg) -> forallb ty_ok args = true ->
+  first_applicable sigs args sg -> instantiates s (s_params sg) (s_ret sg) args rt' ->
+  exists fuel0, forall fuel, fuel0 <= fuel -> forall i,
+    exists i' ps rt, resolve_go fuel fresh pk args sigs i = COk (pk, i', ps, rt) /\
+                     params_match ps args = true /\ ty_eqb rt rt' = true.
+Proof.
+  intros sigs sg s rt' Hs Ha HF. revert Hs.
+  induction HF as [sg rest args Happ|sg rest args sg' Hna Hf IH]; intros Hs HI.
+  - pose proof (Hs sg (or_introl Logic.eq_refl)) as Hsg.
+    exists (infer_bound fresh (s_params sg) (s_ret sg) args). intros fuel Hfuel i.
+    destruct (spec_opt_complete fresh sg args s rt' Hsg Ha HI) as [ps [rt [E [M T]]]].
+    exists i, ps, rt. simpl. rewrite (try_infer_big fuel fresh sg args Hsg Ha Hfuel). simpl. rewrite E, M. auto.
+  - pose proof (Hs sg (or_introl Logic.eq_refl)) as Hsg.
+    destruct (IH Ha (fun sg0 Hin => Hs sg0 (or_intror Hin)) HI) as [fuel1 H1].
+    exists (Nat.max (infer_bound fresh (s_params sg) (s_ret sg) args) fuel1). intros fuel Hfuel i.
+    destruct (H1 fuel (Nat.le_trans _ _ _ (Nat.le_max_r _ _) Hfuel) (i + 1)%Z) as [i' [ps [rt [E [M T]]]]].
+    exists i', ps, rt. simpl.
+    rewrite (try_infer_big fuel fresh sg args Hsg Ha (Nat.le_trans _ _ _ (Nat.le_max_l _ _) Hfuel)). simpl.
+    destruct (spec_opt fresh sg args) as [[ps' rt2]|] eqn:ES; [|auto].
+    destruct (params_match ps' args) eqn:EM; [|auto].
+    exfalso. apply Hna. destruct (spec_opt_sound fresh sg args ps' rt2 Hsg Ha ES EM) as [[s' HI'] _].
+    exists s', rt2. exact HI'.
+Qed.
